@@ -13,7 +13,7 @@ func init() {
 		ID: "C19",
 		Decides: "(R19.1) the center's list of temp databases and its removed list are written only with the center lock held exclusively (or in helpers called only with it held, or the constructor) and read under the lock or through the locked snapshot helpers; " +
 			"(R19.2) every leveldb key builder a reader uses is used by the block writer (and vice versa) — a reader cannot look where nothing is written; (R19.3) every read of the center falls back to the same read of the permanent database with the caller's own argument — for the by-block-height suffrage proof the requested height, lowered to lowest-temp-minus-one only when it lies above it; " +
-			"(R19.4) a temp database is published to readers only after its own merge marker write succeeded and only for the height following the newest one; it leaves the list only after the permanent merge succeeded.",
+			"(R19.4) a temp database is published to readers only after its own merge marker write succeeded and only for the height following the newest one; it leaves the list only after the permanent merge succeeded; (R19.5) Center.state consults a temp only if it is newer than the newest holder of the key found so far, replaces the remembered height only by the height of a newer temp that holds the key, and never resets it (closed or empty temps leave it unchanged).",
 		NotDecided: "agreement with a model over all histories of writes/merges/removals (needs execution); monotonicity of concurrent reads during merges beyond the snapshot/lock discipline.",
 		Run:        runC19,
 	})
@@ -215,6 +215,42 @@ func runC19(c *Ctx) {
 			c.Report(cl, "every state key of the merged block is dropped from the cache", cl.Pos(), len(c.ReturnsD(cl, 0, "false")) == 0, "the callback never stops early")
 		} else {
 			c.Unresolved(fn, "cache purge callback", "not found")
+		}
+	}
+	// R19.5: Center.state — among the temps consulted concurrently the newest holder of the key wins -------
+	c.Rule("R19.5", "MustPass")
+	if fn := c.Need("isaac/database.(*Center).state"); fn != nil {
+		c.Exists(fn, "the newest height found so far starts as NilHeight", c.CallsD(fn, "util.NewLocked(base.NilHeight)"), 1)
+		if cb := c.Need("isaac/database.(*Center).state$1$1"); cb != nil {
+			// returns that replace the remembered height: second result nil
+			var replace, keep []ssa.Instruction
+			for _, r := range Returns(cb) {
+				if len(r.Results) != 2 {
+					continue
+				}
+				if c.D(RetVal(r, 1)) == "nil" {
+					replace = append(replace, r)
+				} else {
+					keep = append(keep, r)
+				}
+			}
+			c.Exists(cb, "a return that records the answering temp's height", replace, 1)
+			for _, r := range replace {
+				d := c.D(RetVal(r.(*ssa.Return), 0))
+				c.Report(cb, "the remembered height is replaced only by the answering temp's height (never reset)", c.InstrPos(r), d == "p.Height()", d)
+			}
+			c.MP(cb, "the remembered height is replaced only by a newer temp", replace, 1, GCmp("p.Height()", ">", "old"))
+			c.MP(cb, "the remembered height is replaced only if that temp holds the key", replace, 1, GTrue("call(f)(key, p)#0"))
+			c.MP(cb, "the remembered height is replaced only if the lookup did not fail", replace, 1, GNil("call(f)(key, p)#1"))
+			c.MP(cb, "a temp is asked only if it is newer than the newest holder found", c.CallsD(cb, "call(f)(key, p)"), 1, GCmp("p.Height()", ">", "old"))
+			for _, r := range keep {
+				d := c.D(RetVal(r.(*ssa.Return), 1))
+				ok := d == "util.ErrLockedSetIgnore" || P("call(f)(key, p)#1").Match(d)
+				c.Report(cb, "every other exit leaves the remembered height as it is (ignore) or hands the lookup error on", c.InstrPos(r), ok, d)
+			}
+		}
+		if mid := c.Need("isaac/database.(*Center).state$1"); mid != nil {
+			c.MP(mid, "the dig goes on only if recording did not fail", c.ReturnsD(mid, 0, "true"), 1, GNil("*.Set(func:isaac/database.(*Center).state$1$1)#1"))
 		}
 	}
 }
